@@ -120,7 +120,14 @@ def generate(repo):
     # ---- argument checks
     t_q, t_tol, t_mi = arg_check(c_q, 'quantile'), arg_check(c_tol, 'tol'), arg_check(c_mi, 'max_iter')
     # ---- first fit only when unfitted
-    if ast.unparse(first) != 'if not self._is_fitted:\n    self.fit(X, y, weights=weights)':
+    FIRST_OLD = 'if not self._is_fitted:\n    self.fit(X, y, weights=weights)'
+    FIRST_NEW = ast.unparse(ast.parse(
+        "if not self._is_fitted:\n    self.fit(X, y, weights=weights)\nelse:\n"
+        "    y = check_y(y, self.link, self.distribution, verbose=self.verbose)\n"
+        "    X = check_X(X, n_feats=self.statistics_['m_features'], edge_knots=self.edge_knots_, dtypes=self.dtype, "
+        "features=self.feature, verbose=self.verbose)\n    check_X_y(X, y)\n").body[0])
+    # an already fitted model validates the data instead of fitting (validation only: no effect on the bisection)
+    if ast.unparse(first) not in (FIRST_OLD, FIRST_NEW):
         fail(first, 'initial fit')
     # ---- initial bracket and counter
     inits = {}
